@@ -59,7 +59,7 @@ class AstToODataVisitor(visitor.NodeVisitor):
 
     def visit_String(self, node: ast.String) -> str:
         """:meta private:"""
-        return "'" + node.val + "'"
+        return "'" + node.val.replace("'", "''") + "'"
 
     def visit_Duration(self, node: ast.Duration) -> str:
         """:meta private:"""
